@@ -6,11 +6,11 @@
 package imps
 
 import (
-	"regexp"
 	"bytes"
 	"fmt"
 	"go/token"
 	"go/types"
+	"regexp"
 	"sort"
 	"strconv"
 	"strings"
